@@ -41,6 +41,7 @@ Step(e) ==
   /\ e.sound = TRUE /\ e.complete = TRUE          \* C07: every entry valid, every constructible slot filled
   /\ e.equal = TRUE                               \* C10 / C07: equal to the table of the construction (= an uninterrupted run)
   /\ e.aLeft = FALSE
+  /\ e.fileslost = <<>>                          \* no graceful stop erased a table of an unfinished plot
   /\ ("syscalls" \in DOMAIN e => Walk(e.syscalls, 1, St0, Pow2(e.bl) \div 2) /\ e.badimages = <<>> /\ e.images > 0)
 
 TInit == tr \in DOMAIN Traces /\ l = 1
